@@ -48,29 +48,41 @@ func timeoutFor(tier string) time.Duration {
 	return 6 * time.Minute
 }
 
-func codecSeed(cfg *PropCfg, tier string, seed uint64, known []proto.KnownFinding, out *Outcome) error {
-	t0 := time.Now()
+// prepared is everything a seed needs before nodes can run.
+type prepared struct {
+	w     *Work
+	node  string
+	batch *proto.Batch
+	built []Built
+}
+
+// prepareSeed builds the scratch copy, instruments it, generates and compiles the seed's
+// population and links the node binary.
+func prepareSeed(cfg *PropCfg, tier string, seed uint64, known []proto.KnownFinding) (*prepared, error) {
 	w, err := NewWork()
 	if err != nil {
-		return err
+		return nil, err
 	}
-	defer w.Close()
+	fail := func(err error) (*prepared, error) {
+		w.Close()
+		return nil, err
+	}
 	if err := w.CopyRepo(false); err != nil {
-		return err
+		return fail(err)
 	}
 	if err := w.PatchGoMod(); err != nil {
-		return err
+		return fail(err)
 	}
 	instr := codecRepoInstr
 	if cfg.RepoInstr != nil {
 		instr = cfg.RepoInstr
 	}
 	if err := w.InstrumentRepo(instr); err != nil {
-		return fmt.Errorf("instrumenting the working tree: %w", err)
+		return fail(fmt.Errorf("instrumenting the working tree: %w", err))
 	}
 	if cfg.CLI {
 		if err := buildCLIs(w); err != nil {
-			return err
+			return fail(err)
 		}
 	}
 	specs := population(cfg, tier, seed)
@@ -80,11 +92,12 @@ func codecSeed(cfg *PropCfg, tier string, seed uint64, known []proto.KnownFindin
 	}
 	built, node, err := w.BuildPrograms(buildSpecs, genInstr, nil)
 	if err != nil {
-		return err
+		return fail(err)
 	}
-	out.Built = append(out.Built, built...)
-	out.Instr.Add(w.Stats)
 	batch := &proto.Batch{Property: cfg.ID, Tier: tier, Seed: seed, Runs: cfg.Runs[tier], Params: cfg.Params[tier], SrcRoot: w.H}
+	if s := os.Getenv("VERIF_RUNS"); s != "" {
+		fmt.Sscan(s, &batch.Runs)
+	}
 	for _, k := range known {
 		if k.Property == cfg.ID && k.Status == "open" {
 			batch.Known = append(batch.Known, k)
@@ -93,13 +106,25 @@ func codecSeed(cfg *PropCfg, tier string, seed uint64, known []proto.KnownFindin
 	for _, sp := range specs {
 		batch.Programs = append(batch.Programs, proto.BatchProg{ID: sp.ID, Schema: sp.Schema, Bop: sp.Bop, Old: sp.Old, OldBop: sp.OldBop})
 	}
+	return &prepared{w: w, node: node, batch: batch, built: built}, nil
+}
+
+func codecSeed(cfg *PropCfg, tier string, seed uint64, known []proto.KnownFinding, out *Outcome) error {
+	t0 := time.Now()
+	p, err := prepareSeed(cfg, tier, seed, known)
+	if err != nil {
+		return err
+	}
+	defer p.w.Close()
+	out.Built = append(out.Built, p.built...)
+	out.Instr.Add(p.w.Stats)
 	out.BuildSecs += time.Since(t0).Seconds()
 	t1 := time.Now()
-	if err := runShards(w, node, batch, out, timeoutFor(tier)); err != nil {
+	if err := runShards(p.w, p.node, p.batch, out, timeoutFor(tier)); err != nil {
 		return err
 	}
 	out.RunSecs += time.Since(t1).Seconds()
-	verifyReplays(w, node, out)
+	verifyReplays(p.w, p.node, out)
 	return nil
 }
 
